@@ -835,13 +835,8 @@ pub struct RobloxClass {
 
 impl RobloxClass {
     pub fn has_event(&self, roblox_classes: &BTreeMap<String, RobloxClass>, event: &str) -> bool {
-        if self.events.iter().any(|other_event| other_event == event) {
-            true
-        } else if let Some(superclass) = roblox_classes.get(&self.superclass) {
-            superclass.has_event(roblox_classes, event)
-        } else {
-            false
-        }
+        self.ancestry(roblox_classes)
+            .any(|class| class.events.iter().any(|other_event| other_event == event))
     }
 
     pub fn has_property(
@@ -849,17 +844,24 @@ impl RobloxClass {
         roblox_classes: &BTreeMap<String, RobloxClass>,
         property: &str,
     ) -> bool {
-        if self
-            .properties
-            .iter()
-            .any(|other_property| other_property == property)
-        {
-            true
-        } else if let Some(superclass) = roblox_classes.get(&self.superclass) {
-            superclass.has_property(roblox_classes, property)
-        } else {
-            false
-        }
+        self.ancestry(roblox_classes).any(|class| {
+            class
+                .properties
+                .iter()
+                .any(|other_property| other_property == property)
+        })
+    }
+
+    // This class followed by its superclasses. A hierarchy read from a file may contain a cycle,
+    // so no more classes are visited than there are.
+    fn ancestry<'a>(
+        &'a self,
+        roblox_classes: &'a BTreeMap<String, RobloxClass>,
+    ) -> impl Iterator<Item = &'a RobloxClass> {
+        std::iter::successors(Some(self), move |class| {
+            roblox_classes.get(&class.superclass)
+        })
+        .take(roblox_classes.len() + 1)
     }
 }
 
